@@ -143,10 +143,11 @@ Qed.
 
 (* a wake-up for the removed slot that was already pending is ignored *)
 Theorem closed_slot_wakeup n c :
-  n <> 0 -> alookup n (c_slots c) = None -> handle_event c (EvChan n) = (OOk, c, []).
+  n <> 0 -> alookup n (c_slots c) = None ->
+  handle_event c (EvChan n) = (OOk, (if c_high c <? out_len c then set_need c true else c), []).
 Proof.
   intros Hn Hl. cbn [handle_event]. destruct (n =? 0) eqn:E; [apply N.eqb_eq in E; contradiction|].
-  unfold mail_fuel. cbn [chan_readable]. rewrite Hl. reflexivity.
+  unfold mail_fuel. cbn [chan_readable]. rewrite Hl. destruct (c_high c <? out_len c); reflexivity.
 Qed.
 
 (* ====================== C08: the close handshake ====================== *)
@@ -559,39 +560,72 @@ Qed.
 
 (* ====================== C01: hand-over from the handles ====================== *)
 
-(* a channel's mailbox is emptied in FIFO order, each buffer appended whole: the buffers
-   of one channel reach the out-buffer in the order that channel submitted them, and
-   another channel's bytes can only come before or after a whole buffer *)
+(* a channel's mailbox is taken from in FIFO order, each buffer appended whole: the buffers of
+   one channel reach the out-buffer in the order that channel submitted them, another channel's
+   bytes can only come before or after a whole buffer, and what is not taken (the loop stops as
+   soon as it finds the out-buffer above the high-water mark) stays in the mailbox, in order,
+   with a re-poll of the channels owed *)
 Theorem mailbox_fifo n : forall bufs fuel c s,
   n <> 0 -> alookup n (c_slots c) = Some s -> s_mail s = map MsgSend bufs -> s_mail_tx s = true ->
   ob_sealed (c_out c) = false -> (length bufs < fuel)%nat ->
-  exists c', chan_readable fuel n c = (OOk, c') /\
-    ob (c_out c') = ob (c_out c) ++ concat bufs /\ ob_sealed (c_out c') = false /\
-    c_phase c' = c_phase c /\ c_qs c' = c_qs c /\
+  exists c' taken rest, chan_readable fuel n c = (OOk, c') /\
+    bufs = taken ++ rest /\
+    ob (c_out c') = ob (c_out c) ++ concat taken /\ ob_sealed (c_out c') = false /\
+    c_phase c' = c_phase c /\ c_qs c' = c_qs c /\ c_high c' = c_high c /\
     (forall k, k <> n -> alookup k (c_slots c') = alookup k (c_slots c)) /\
-    (exists s', alookup n (c_slots c') = Some s' /\ s_mail s' = []).
+    (exists s', alookup n (c_slots c') = Some s' /\ s_mail s' = map MsgSend rest) /\
+    (rest <> [] -> c_need c' = true /\ c_high c < out_len c').
 Proof.
   induction bufs as [|b bufs IH]; intros fuel c s Hn Hl Hm Htx Hu Hf.
-  - destruct fuel as [|fuel]; [cbn in Hf; lia|]. cbn [chan_readable]. rewrite Hl. cbn in Hm. rewrite Hm, Htx.
-    exists c. rewrite app_nil_r. repeat split; try reflexivity; try exact Hu. exists s. split; [exact Hl|exact Hm].
-  - destruct fuel as [|fuel]; [cbn in Hf; lia|]. cbn [chan_readable]. rewrite Hl. cbn [map] in Hm. rewrite Hm.
-    cbn [channel_message].
-    set (c1 := push_out (set_slot c n (with_mail s (map MsgSend bufs))) b).
-    assert (Hl1 : alookup n (c_slots c1) = Some (with_mail s (map MsgSend bufs))).
-    { unfold c1, push_out, set_out, set_slot, set_slots. cbn. apply alookup_insert_eq. }
-    assert (Hu1 : ob_sealed (c_out c1) = false).
-    { unfold c1, push_out, set_out, ob_append. cbn. rewrite Hu. reflexivity. }
-    assert (Hm1 : s_mail (with_mail s (map MsgSend bufs)) = map MsgSend bufs) by (destruct s; reflexivity).
-    assert (Htx1 : s_mail_tx (with_mail s (map MsgSend bufs)) = true) by (destruct s; exact Htx).
-    assert (Hf1 : (length bufs < fuel)%nat) by (cbn in Hf; lia).
-    destruct (IH fuel c1 (with_mail s (map MsgSend bufs)) Hn Hl1 Hm1 Htx1 Hu1 Hf1)
-      as (c' & Hr & Ho & Hs & Hp & Hq & Hk & Hs').
-    exists c'. split; [exact Hr|]. split.
+  - destruct fuel as [|fuel]; [cbn in Hf; lia|]. cbn [chan_readable].
+    destruct (c_high c <? out_len c).
+    + exists (set_need c true), [], []. cbn. rewrite app_nil_r.
+      repeat split; try reflexivity; try exact Hu; try congruence. exists s. split; [exact Hl|exact Hm].
+    + rewrite Hl. cbn in Hm. rewrite Hm, Htx.
+      exists c, [], []. cbn. rewrite app_nil_r.
+      repeat split; try reflexivity; try exact Hu; try congruence. exists s. split; [exact Hl|exact Hm].
+  - destruct fuel as [|fuel]; [cbn in Hf; lia|]. cbn [chan_readable].
+    destruct (N.ltb_spec (c_high c) (out_len c)) as [Hhi|Hhi].
+    + exists (set_need c true), [], (b :: bufs). cbn. rewrite app_nil_r.
+      repeat split; try reflexivity; try exact Hu; try exact Hhi.
+      exists s. split; [exact Hl|exact Hm].
+    + rewrite Hl. cbn [map] in Hm. rewrite Hm. cbn [channel_message].
+      set (c1 := push_out (set_slot c n (with_mail s (map MsgSend bufs))) b).
+      assert (Hl1 : alookup n (c_slots c1) = Some (with_mail s (map MsgSend bufs))).
+      { unfold c1, push_out, set_out, set_slot, set_slots. cbn. apply alookup_insert_eq. }
+      assert (Hu1 : ob_sealed (c_out c1) = false).
+      { unfold c1, push_out, set_out, ob_append. cbn. rewrite Hu. reflexivity. }
+      assert (Hm1 : s_mail (with_mail s (map MsgSend bufs)) = map MsgSend bufs) by (destruct s; reflexivity).
+      assert (Htx1 : s_mail_tx (with_mail s (map MsgSend bufs)) = true) by (destruct s; exact Htx).
+      assert (Hf1 : (length bufs < fuel)%nat) by (cbn in Hf; lia).
+      destruct (IH fuel c1 (with_mail s (map MsgSend bufs)) Hn Hl1 Hm1 Htx1 Hu1 Hf1)
+        as (c' & taken & rest & Hr & Hb & Ho & Hs & Hp & Hq & Hh & Hk & Hs' & Hstop).
+      exists c', (b :: taken), rest. split; [exact Hr|]. split; [cbn; rewrite Hb; reflexivity|]. split.
       * rewrite Ho. unfold c1, push_out, set_out, ob_append. cbn. rewrite Hu. cbn. rewrite <- app_assoc. reflexivity.
       * split; [exact Hs|]. split; [rewrite Hp; reflexivity|]. split; [rewrite Hq; reflexivity|].
-        split; [|exact Hs'].
-        intros k Hk'. rewrite (Hk k Hk'). unfold c1, push_out, set_out, set_slot, set_slots. cbn.
-        apply alookup_insert_neq. exact Hk'.
+        split; [rewrite Hh; reflexivity|]. split; [|split; [exact Hs'|]].
+        -- intros k Hk'. rewrite (Hk k Hk'). unfold c1, push_out, set_out, set_slot, set_slots. cbn.
+           apply alookup_insert_neq. exact Hk'.
+        -- intro Hne. destruct (Hstop Hne) as [H1 H2]. split; [exact H1|]. exact H2.
+Qed.
+
+(* below the mark nothing is left behind: if even with everything appended the out-buffer does
+   not exceed the high-water mark, the whole mailbox is taken *)
+Theorem mailbox_fifo_below_mark n bufs fuel c s :
+  n <> 0 -> alookup n (c_slots c) = Some s -> s_mail s = map MsgSend bufs -> s_mail_tx s = true ->
+  ob_sealed (c_out c) = false -> (length bufs < fuel)%nat ->
+  N.of_nat (length (ob (c_out c) ++ concat bufs)) <= c_high c ->
+  exists c', chan_readable fuel n c = (OOk, c') /\
+    ob (c_out c') = ob (c_out c) ++ concat bufs /\
+    (exists s', alookup n (c_slots c') = Some s' /\ s_mail s' = []).
+Proof.
+  intros Hn Hl Hm Htx Hu Hf Hle.
+  destruct (@mailbox_fifo n bufs fuel c s Hn Hl Hm Htx Hu Hf)
+    as (c' & taken & rest & Hr & Hb & Ho & _ & _ & _ & _ & _ & Hs' & Hstop).
+  destruct rest as [|r0 rest].
+  - rewrite app_nil_r in Hb. subst taken. exists c'. split; [exact Hr|]. split; [exact Ho|exact Hs'].
+  - exfalso. destruct (Hstop ltac:(discriminate)) as [_ H2]. unfold out_len in H2. rewrite Ho in H2.
+    rewrite Hb in Hle. rewrite concat_app, !app_length in Hle. rewrite app_length in H2. lia.
 Qed.
 
 (* a write-only STREAM event: what goes to the wire followed by what stays buffered is
